@@ -501,6 +501,12 @@ def enum_cases(kind, value, L, variant='own'):
 # ---------------------------------------------------------------------------
 
 
+def add_dis(res, v, cap=3):
+    """Record a disagreement, at most `cap` per signature."""
+    if sum(1 for x in res.disagreements if x.sig == v.sig) < cap:
+        res.disagreements.append(v)
+
+
 def public(case):
     return {k: case[k] for k in ('kind', 'value', 'variant', 'shards', 'progs', 'schedule', 'disciplined') if k in case}
 
@@ -527,7 +533,7 @@ def run_cases(ctx, res, cases, hist, correspond=True):
             steps, attempts = atomic_steps(out, n)
         except Shape as e:
             res.count(public(case))
-            res.disagreements.append(fw.Violation('event-shape', 'scheduler log does not have the modelled shape: %s' % e,
+            add_dis(res, fw.Violation('event-shape', 'scheduler log does not have the modelled shape: %s' % e,
                                                   dict(public(case), check='contenders'), 'correspondence'))
             continue
         contended = any(not ok for (_, _, _, ok) in attempts)
